@@ -34,6 +34,7 @@ def run(repo: Repo, tier: str, res: CheckResult, seed: int = 0) -> None:
     res.count("TV.dumper-programs", n2, 200)
     genprog.c03_layout_checks(repo, tier, res, seed)
     overlay_ancestors(repo, res)
+    layout_objects_compare_all_fields(repo, res)
     # hidden memos in the layout stage and the generators (shared rule family of C11): a sieve / crown cached under a key
     # that compares the user's default by == serves `0` with the sieve of `False`
     from .. import memo
@@ -87,3 +88,43 @@ def overlay_ancestors(repo: Repo, res: CheckResult) -> None:
         res.add(Finding("C03", "OVERLAY.ancestors-not-transitive", m.rel, "provide_schema", norm(lp.iter),
                         f"{problem}: a name_mapping (map / skip / nested path) bound to a grandparent class or to the base of a "
                         "mixin no longer reaches the model, loader and dumper silently use the generated keys", lp.lineno))
+
+
+def layout_objects_compare_all_fields(repo: Repo, res: CheckResult) -> None:
+    """Crowns and name layouts are arguments of cached factories (the generated loader / dumper is memoised per layout). They
+    are frozen dataclasses; a hand-written __eq__ must compare every field the dataclass declares (own and inherited),
+    otherwise two layouts of one model that differ in the omitted field (extra_policy: ExtraSkip vs ExtraForbid) share a
+    loader -- the model placed at two locations with different extra_in gets the policy of whichever was requested first."""
+    n = 0
+    for mname in ("morphing/model/crown_definitions", "morphing/name_layout/base"):
+        try:
+            m = repo.mod(mname)
+        except AnalysisError:
+            if mname.endswith("crown_definitions"):
+                raise
+            continue
+        for ci in m.classes.values():
+            if not any("dataclass" in norm(d) for d in ci.node.decorator_list):
+                continue
+            fields = []
+            for c in reversed(repo.mro(ci)):
+                if not any("dataclass" in norm(d) for d in c.node.decorator_list):
+                    continue
+                for st in c.node.body:
+                    if isinstance(st, ast.AnnAssign) and isinstance(st.target, ast.Name) and "ClassVar" not in norm(st.annotation):
+                        if st.target.id not in fields:
+                            fields.append(st.target.id)
+            n += 1
+            eq = ci.methods.get("__eq__")
+            res.evaluated(f"layout-eq:{ci.name}", eq is not None)
+            if eq is None:
+                continue      # the generated __eq__ compares every field
+            read = {x.attr for x in ast.walk(eq) if isinstance(x, ast.Attribute) and isinstance(x.value, ast.Name) and x.value.id == "self"}
+            whole = any(isinstance(c, ast.Call) and norm(c.func) in ("astuple", "asdict", "vars", "dataclasses.astuple", "dataclasses.asdict")
+                        for c in ast.walk(eq))
+            missing = [f for f in fields if f not in read]
+            if missing and not whole:
+                res.add(Finding("C03", "LAYOUT.eq-omits-field", m.rel, f"{ci.name}.__eq__", ", ".join(missing),
+                                f"{ci.name}.__eq__ does not compare {missing}: layouts that differ only there are equal cache keys, the loader "
+                                "generated for the first one (its extra policy, its sieves) is returned for the second", eq.lineno))
+    res.count("LAYOUT.layout-dataclasses", n, 8)
